@@ -253,6 +253,24 @@ theorem cosine_symm (w : Nat) (hw : w = 8 ∨ w = 4) (a b : List α) (hab : a.le
   show 1 - _ / sq (_ * _) = 1 - _ / sq (_ * _)
   rw [mul_comm]
 
+/-- **cosine: AVX = SSE = portable in exact arithmetic**, provided the square root is
+multiplicative on the two squared norms (`√(x·y) = √x·√y`): the kernels divide by `√(‖a‖²·‖b‖²)`,
+the portable code by `√‖a‖²·√‖b‖²`. In float32 the product `‖a‖²·‖b‖²` can leave the range where
+neither factor's root does: the known findings. -/
+theorem cosine_impls_agree (w : Nat) (hw : w = 8 ∨ w = 4) (a b : List α) (hab : a.length = b.length)
+    (hmul : sq ((List.zipWith (fun x _ => x * x) a b).sum * (List.zipWith (fun _ y => y * y) a b).sum) =
+      sq (List.zipWith (fun x _ => x * x) a b).sum * sq (List.zipWith (fun _ y => y * y) a b).sum) :
+    cosine E w a b = nativeCosine E a b := by
+  unfold cosine nativeCosine
+  obtain ⟨h1, h2, h3⟩ := cosine_sums sq w hw a b hab
+  simp only [h1, h2, h3]
+  have hs : ∀ (f : α → α → α), seqSum E f a b = (List.zipWith f a b).sum := by
+    intro f; unfold seqSum; rw [foldl_add_sum]; simp [exactOps]
+  rw [hs, hs, hs]
+  show 1 - _ / sq (_ * _) = 1 - _ / (sq _ * sq _)
+  rw [hmul]
+  rfl
+
 end
 
 /-! ### which elements are read: every index below the length, each exactly once -/
